@@ -238,6 +238,16 @@ def contracts(env):
 
 # ---------------------------------------------------------------- facts + bounded tokenizer
 def extra(rep, tier, seed, budget):
+    from bounded import userdict as _ud
+    _ud.integrate(rep)
+    from pyvc import cli as _cli
+    from specs import c04 as _m04
+    _e04 = _m04.base_env()
+    for _c in _m04.contracts(_e04):
+        if 'check_approvals' in _c.label:
+            _c.label = _c.label + ' [C07 a bypass waives only its own requirement]'
+            _cli.handle_function(rep, _m04, _e04, _c, budget, _cli.load_lock().get('C07', {}))
+    rep.trusted.extend(_e04.trusted)
     from specs import shared_facts as _sf
     _sf.add_facts(rep, _sf.option_defaults() + _sf.github_logins_normalised(), 'option registry defaults, login normalisation')
     from bounded import author_options as _ao
